@@ -32,3 +32,12 @@ Definition single_clear_hello (d : dgram) : Prop :=
    the return value *)
 Definition no_handshake_output (o : list out) : Prop :=
   forall x, In x o -> match x with OCallback _ _ | OLog _ | ORet _ => True | _ => False end.
+
+(* the part of UdpClient.update after the receive step: build / send / time-outs *)
+Definition client_send_part (e : env) (c : conn) (now : Z) : conn * list out :=
+  if now - c_last_send c >? c_send_interval c then
+    let '(c, pk) := build_packet e c now in
+    let o2 := match pk with Some p => emit c p | None => [] end in
+    let '(c, o3) := check_timeout false c now in
+    (c, o2 ++ o3)
+  else (c, []).
